@@ -3,7 +3,8 @@
     of Base/FS.v is assumed).  Only statements here; proofs: Proofs/FS.v,
     Proofs/Writers.v. *)
 From Coq Require Import String List NArith Bool.
-From AGH Require Import Base.FS Proofs.FS Model.Writers Gen.Writers Proofs.Writers Model.SaveLoop Proofs.SaveLoop.
+From AGH Require Import Base.FS Proofs.FS Model.Writers Gen.Writers Proofs.Writers Model.SaveLoop Proofs.SaveLoop
+  Proofs.SaveOverlap Proofs.SaveSetUrl.
 Import ListNotations.
 Local Open Scope N_scope.
 
@@ -466,3 +467,196 @@ Example C14_round2_premises :
    2 <> 1 /\ aget (dir_cur s3) 2 = Some 2 /\ f_pend (file_of s3 2) <> [] /\
    trace_safe 1 s3 [Rename 2 1] = false).
 Proof. exact round2_premises. Qed.
+
+(** ** Round 5 (I): overlapping downloads and the pooled scanner buffer *)
+
+(** The line scanner with its buffer contents explicit is a parser stage that
+    does not depend on how the body is cut into chunks, for every line
+    processor: all theorems of the download path hold for it. *)
+Theorem C14_buffered_scanner_chunking_independent : forall PS (pl : PS -> data -> option (PS * list data)),
+  chunking_independent (bst PS) (buf_feed PS pl).
+Proof. exact buf_chunking_independent. Qed.
+Print Assumptions C14_buffered_scanner_chunking_independent.
+
+(** With the deferred Put of updateIntl (a download holds its buffer until its
+    copy loop has finished): for ANY number of downloads, ANY inputs (cut,
+    rejected, complete), ANY interleaving of their steps (Get, one Read result
+    each), a download that has ended has requested exactly the writes, and
+    reports exactly the end, of the same download running ALONE. *)
+Theorem C14_overlapping_saves_independent : forall PS ps0 (pl : PS -> data -> option (PS * list data)) inputs sched i ws ok,
+  saver_result PS (prun PS pl false (pinit PS ps0 inputs) sched) i = Some (ws, ok) ->
+  pump (bst PS) (buf_feed PS pl) (buf_finish PS pl) (ps0, []) (orig_of inputs i) = (ws, ok).
+Proof. exact pool_run_independent. Qed.
+Print Assumptions C14_overlapping_saves_independent.
+
+(** ... hence, for a completely served body, the normal form of ITS OWN body
+    (the [norm] of [C14_update_list_served_identity]), whatever the other
+    downloads read and write. *)
+Theorem C14_overlapping_saves_own_normal_form : forall PS ps0 (pl : PS -> data -> option (PS * list data)) inputs sched i chunks ws ok,
+  aget inputs i = Some (serve chunks false) ->
+  saver_result PS (prun PS pl false (pinit PS ps0 inputs) sched) i = Some (ws, ok) ->
+  if ok then norm (bst PS) (buf_feed PS pl) (buf_finish PS pl) (ps0, []) (concat chunks) = Some (concat ws)
+  else norm (bst PS) (buf_feed PS pl) (buf_finish PS pl) (ps0, []) (concat chunks) = None.
+Proof. exact pool_run_own_normal_form. Qed.
+Print Assumptions C14_overlapping_saves_own_normal_form.
+
+(** While it runs: what a download has written so far, continued by what the
+    lone download would write from its present state, is the lone download's
+    output: nothing of another download has entered. *)
+Theorem C14_overlapping_saves_prefix : forall PS ps0 (pl : PS -> data -> option (PS * list data)) inputs sched i sv,
+  let w := prun PS pl false (pinit PS ps0 inputs) sched in
+  aget (po_savers PS w) i = Some sv -> sv_phase PS sv = SCopy ->
+  pump_from PS pl (sv_ws PS sv) (sv_ps PS sv, cell PS w (sv_buf PS sv)) (sv_in PS sv) =
+  pump (bst PS) (buf_feed PS pl) (buf_finish PS pl) (ps0, []) (orig_of inputs i).
+Proof. exact pool_run_prefix. Qed.
+Print Assumptions C14_overlapping_saves_prefix.
+
+(** The reason: no two running downloads ever hold the same buffer, and a
+    buffer in the pool is nobody's. *)
+Theorem C14_pooled_buffer_exclusive : forall PS ps0 (pl : PS -> data -> option (PS * list data)) inputs sched i j svi svj,
+  let w := prun PS pl false (pinit PS ps0 inputs) sched in
+  i <> j -> aget (po_savers PS w) i = Some svi -> aget (po_savers PS w) j = Some svj ->
+  sv_phase PS svi = SCopy -> sv_phase PS svj = SCopy ->
+  sv_buf PS svi <> sv_buf PS svj /\ ~ In (sv_buf PS svi) (po_free PS w).
+Proof. exact pool_run_exclusive. Qed.
+Print Assumptions C14_pooled_buffer_exclusive.
+
+Example C14_overlapping_saves_premises :
+  let inputs := [(1, serve [[97; 97]; [97; 10; 97]; [97; 97; 10]] false);
+                 (2, serve [[98; 10; 98]; [98; 10; 35; 98; 10]; [98]] false);
+                 (3, serve [[99; 99; 10; 99]] true)] in
+  let w := prun bool simple_pl false (pinit bool false inputs) [1; 1; 2; 2; 3; 1; 3; 2; 2; 1; 3; 1; 2] in
+  saver_result bool w 1 = Some ([[97; 97; 97; 10]; [97; 97; 97; 10]], true) /\
+  saver_result bool w 2 = Some ([[98; 10]; [98; 98; 10]; [98; 10]], true) /\
+  saver_result bool w 3 = Some ([[99; 99; 10]], false) /\
+  po_free bool w <> [] /\ po_next bool w = 3.
+Proof. exact pool_run_example. Qed.
+
+(** REFUTED: Put before use (the buffer is back in the pool while the copy
+    loop still reads into it).  Download 2 gets the buffer in which half a
+    line of download 1 is pending; both report success; 1's output holds a
+    line with a byte of 2, 2's a truncated line; with the deferred Put the
+    same inputs and schedule give each its own. *)
+Theorem C14_early_put_mixes :
+  let inputs := [(1, serve [[97; 10; 97; 97]; [97; 10]] false);
+                 (2, serve [[98; 98; 10; 98]; [98; 10]] false)] in
+  let sched := [1; 1; 2; 2; 1; 1; 2; 2] in
+  let w := prun bool simple_pl true (pinit bool false inputs) sched in
+  saver_result bool w 1 = Some ([[97; 10]; [98; 97; 10]], true) /\
+  saver_result bool w 2 = Some ([[98; 98; 10]; [98; 10]], true) /\
+  pump (bst bool) (buf_feed bool simple_pl) (buf_finish bool simple_pl) (false, []) (orig_of inputs 1)
+    = ([[97; 10]; [97; 97; 97; 10]], true) /\
+  (let w' := prun bool simple_pl false (pinit bool false inputs) sched in
+   saver_result bool w' 1 = Some ([[97; 10]; [97; 97; 97; 10]], true) /\
+   saver_result bool w' 2 = Some ([[98; 98; 10]; [98; 98; 10]], true)).
+Proof. exact early_put_mixes. Qed.
+Print Assumptions C14_early_put_mixes.
+
+Theorem C14_early_put_foreign_line :
+  let inputs := [(1, serve [[97; 97]; [97; 10]] false);
+                 (2, serve [[98; 98; 10; 98]; [98; 10]] false)] in
+  let w := prun bool simple_pl true (pinit bool false inputs) [1; 1; 2; 2; 1; 1; 2; 2] in
+  saver_result bool w 1 = Some ([[98; 97; 10]], true) /\
+  In 98 (concat (fst (match saver_result bool w 1 with Some x => x | None => ([], false) end))).
+Proof. exact early_put_foreign_line. Qed.
+Print Assumptions C14_early_put_foreign_line.
+
+(** ** Round 5 (J): set_url (filterSetProperties) and the list file *)
+
+(** A download that cannot produce a complete new version reports [Failed]. *)
+Theorem C14_update_list_fails : forall St st0 feed finish sum fd tmp dst src_ok r old_sum p,
+  src_ok = false \/ snd (pump St feed finish st0 r) = false \/ p_open p = true \/
+  snd (do_writes (fst (pump St feed finish st0 r)) (p_write p)) = false ->
+  exists st, snd (update_list St st0 feed finish sum fd tmp dst src_ok r old_sum p) = Failed st.
+Proof. exact update_list_fails. Qed.
+Print Assumptions C14_update_list_fails.
+
+(** Whatever the request (URL change, re-enable, rename, disable, a URL that
+    is taken), the source, the fault plan: a set_url call that reports an
+    error has left the file as it was at every instant and after a crash at
+    every prefix, and has rolled the entry back. *)
+Theorem C14_failed_set_url_keeps_file : forall St st0 feed finish sum s e taken q fd tmp dst src_ok r p rmf,
+  quiescent s dst -> fresh_tmp s dst tmp ->
+  let x := set_props St st0 feed finish sum true s e taken q fd tmp dst src_ok r p rmf in
+  snd (fst x) = SetErr ->
+  (forall v, In v (visible_states s (fst (fst x)) dst) -> v = live_view s dst) /\
+  live_view (run s (fst (fst x))) dst = live_view s dst /\
+  snd x = e.
+Proof. exact set_props_failed_keeps_file. Qed.
+Print Assumptions C14_failed_set_url_keeps_file.
+
+(** ... and a failing download always makes the call report an error. *)
+Theorem C14_failed_download_fails_set_url : forall St st0 feed finish sum s e taken q fd tmp dst src_ok r p rmf,
+  downloads e taken q = true ->
+  (exists st, snd (update_list St st0 feed finish sum fd tmp dst src_ok r (sum_for e q) p) = Failed st) ->
+  snd (fst (set_props St st0 feed finish sum true s e taken q fd tmp dst src_ok r p rmf)) = SetErr.
+Proof. exact set_props_failed_download_reported. Qed.
+Print Assumptions C14_failed_download_fails_set_url.
+
+(** After a call that succeeds: the file is untouched when no download is made;
+    the new list when the download replaced it; NO FILE only when the download
+    ended without error, read to EOF, and brought what the checksum in memory
+    already describes (0 after a URL change or for a disabled list: a list
+    without rules; fix 9598232).  The removal is an unlink of dst, outside the
+    rename discipline: the statement is about the state after the call. *)
+Theorem C14_set_url_ok_file : forall St st0 feed finish sum s e taken q fd tmp dst src_ok r p rmf restart,
+  quiescent s dst -> fresh_tmp s dst tmp ->
+  let x := set_props St st0 feed finish sum true s e taken q fd tmp dst src_ok r p rmf in
+  snd (fst x) = SetOk restart ->
+  let fin := live_view (run s (fst (fst x))) dst in
+  if downloads e taken q then
+    match snd (update_list St st0 feed finish sum fd tmp dst src_ok r (sum_for e q) p) with
+    | Replaced => fin = Some (concat (fst (pump St feed finish st0 r))) /\ restart = true
+    | Skipped => fin = None /\ restart = true /\
+                 snd (pump St feed finish st0 r) = true /\ sum (concat (fst (pump St feed finish st0 r))) = sum_for e q
+    | Failed _ => False
+    end
+  else fin = live_view s dst /\ fst (fst x) = [].
+Proof. exact set_props_ok_file. Qed.
+Print Assumptions C14_set_url_ok_file.
+
+(** REFUTED: the removal guarded by [!updated] alone (without [err == nil]).
+    Whenever the stored file exists and the source cannot be reached, the call
+    reports the error, rolls the entry back, and the file is gone. *)
+Theorem C14_unguarded_removal_loses_file : forall St st0 feed finish sum s e taken q fd tmp dst r p,
+  quiescent s dst -> fresh_tmp s dst tmp ->
+  downloads e taken q = true -> dst_present s dst = true ->
+  let x := set_props St st0 feed finish sum false s e taken q fd tmp dst false r p false in
+  snd (fst x) = SetErr /\ snd x = e /\
+  live_view s dst <> None /\ live_view (run s (fst (fst x))) dst = None.
+Proof. exact set_props_unguarded_loses_file. Qed.
+Print Assumptions C14_unguarded_removal_loses_file.
+
+Example C14_set_url_premises :
+  let s := boot [(1, [10; 11])] in
+  let e := {| e_url := 7; e_enabled := true; e_sum := 2 |} in
+  let off := {| e_url := 7; e_enabled := false; e_sum := 0 |} in
+  let fin x := live_view (run s (fst (fst x))) 1 in
+  quiescent s 1 /\ fresh_tmp s 1 2 /\
+  (let x := su_set true s e false {| q_url := 8; q_enabled := true |} 3 2 1 false [] no_faults false in
+   snd (fst x) = SetErr /\ fin x = Some [10; 11] /\ snd x = e /\
+   fst (fst x) = [Open 3 2 fl_tmp; Close 3; Unlink 2]) /\
+  (let x := su_set true s e false {| q_url := 8; q_enabled := true |} 3 2 1 true (serve [[20]; [21]] true) no_faults false in
+   snd (fst x) = SetErr /\ fin x = Some [10; 11] /\ snd x = e) /\
+  (let x := su_set true s e false {| q_url := 8; q_enabled := true |} 3 2 1 true (serve [[20]; [21; 22]] false) no_faults false in
+   snd (fst x) = SetOk true /\ fin x = Some [20; 21; 22] /\ snd x = {| e_url := 8; e_enabled := true; e_sum := 3 |}) /\
+  (let x := su_set true s e false {| q_url := 8; q_enabled := true |} 3 2 1 true (serve [] false) no_faults false in
+   snd (fst x) = SetOk true /\ fin x = None /\
+   fst (fst x) = [Open 3 2 fl_tmp; Close 3; Unlink 2; Unlink 1]) /\
+  (let x := su_set true s off false {| q_url := 7; q_enabled := true |} 3 2 1 false [] no_faults false in
+   snd (fst x) = SetErr /\ fin x = Some [10; 11] /\ snd x = off) /\
+  (let x := su_set true s e false {| q_url := 7; q_enabled := false |} 3 2 1 true [] no_faults false in
+   snd (fst x) = SetOk true /\ fin x = Some [10; 11] /\ fst (fst x) = []) /\
+  (let x := su_set true s e true {| q_url := 8; q_enabled := true |} 3 2 1 true (serve [[20]] false) no_faults false in
+   snd (fst x) = SetErr /\ fst (fst x) = [] /\ snd x = e).
+Proof. exact set_props_premises. Qed.
+
+Example C14_unguarded_removal_witness :
+  let s := boot [(1, [10; 11])] in
+  let e := {| e_url := 7; e_enabled := true; e_sum := 2 |} in
+  let x := su_set false s e false {| q_url := 8; q_enabled := true |} 3 2 1 false [] no_faults false in
+  snd (fst x) = SetErr /\ snd x = e /\
+  fst (fst x) = [Open 3 2 fl_tmp; Close 3; Unlink 2; Unlink 1] /\
+  live_view (run s (fst (fst x))) 1 = None /\
+  trace_safe 1 s (fst (fst x)) = false /\ dst_stays 1 s (fst (fst x)) = false.
+Proof. exact set_props_unguarded_witness. Qed.
